@@ -13,6 +13,12 @@
 #include <unistd.h>
 #include <execinfo.h>
 #include <openssl/ssl.h>
+#ifdef XSIM_FLAVOUR_cov
+extern "C" int __llvm_profile_write_file(void);
+#define XSIM_PROFILE_FLUSH() __llvm_profile_write_file()
+#else
+#define XSIM_PROFILE_FLUSH() ((void)0)
+#endif
 
 using namespace xs;
 
@@ -100,7 +106,7 @@ static void fatal_trap(const char *oracle, const char *detail) {
     if (G) G->violation(oracle, "%s", detail);
     if (on_fatal) on_fatal(oracle, detail);
     fprintf(stderr, "xsim: fatal trap %s: %s\n", oracle, detail);
-    _exit(70);
+    XSIM_PROFILE_FLUSH(), _exit(70);
 }
 
 // ---- modelled mutexes
@@ -115,6 +121,12 @@ void reset_mutex_model() { mtx_owner()->clear(); }
 
 extern "C" {
 
+// the library's console log (XCM_DEBUG): formatted under the sanitizers, text discarded
+int __real_fputs(const char *, FILE *);
+int __wrap_fputs(const char *str, FILE *f) {
+    if (SIM && f == stderr && G->plan.P("debug_log")) { G->count("probe.debug_log_lines"); return 1; }
+    return __real_fputs(str, f);
+}
 int __wrap_socket(int d, int t, int p) { return SIM ? k::socket(d, t, p) : __real_socket(d, t, p); }
 int __wrap_bind(int fd, const struct sockaddr *sa, socklen_t l) { return SIM ? k::bind(fd, sa, l) : __real_bind(fd, sa, l); }
 int __wrap_listen(int fd, int b) { return SIM ? k::listen(fd, b) : __real_listen(fd, b); }
